@@ -24,6 +24,29 @@ def bitsSet (W : Nat) (t : Array String) : String :=
   let g := Bitstream.get W ws' off n
   s!"g={hex g} w= {" ".intercalate (ws'.map hex)}"
 
+/-- `bits<W>.far`: the window of four words around a far offset; the model is invariant under shifting the
+    stream by whole words, so it is run at the window-relative offset -/
+def bitsFar (W : Nat) (t : Array String) : String :=
+  let init := (kw t "init").getD "0"
+  let off := argH t 2
+  let n := argH t 3
+  let v := argH t 4
+  let iw := off / W
+  if n < 1 ∨ n > W ∨ iw < 1 ∨ off > 2 ^ 36 then "bad-width" else
+  let rec gen (k : Nat) (st : UInt64) (acc : List Nat) : List Nat :=
+    match k with
+    | 0 => acc.reverse
+    | k + 1 =>
+      if init.startsWith "r" then
+        let (st, x) := sm64 st
+        gen k st ((x.toNat % 2 ^ W) :: acc)
+      else gen k st ((if init.startsWith "f" then 2 ^ W - 1 else 0) :: acc)
+  let ws := gen 4 (parseHex (init.drop 1).toString).toUInt64 []
+  let rel := off - (iw - 1) * W
+  let ws' := Bitstream.set W ws rel n v
+  let g := Bitstream.get W ws' rel n
+  s!"g={hex g} w= {" ".intercalate (ws'.map hex)}"
+
 def bitsSigned (n : Nat) (s : Int) : String :=
   if n < 2 ∨ n > 64 then "bad-width" else
   let f := Bitstream.prepareSigned n s
@@ -35,6 +58,10 @@ def bitsOp (t : Array String) : Option String :=
   | "bits16.set" => some (bitsSet 16 t)
   | "bits32.set" => some (bitsSet 32 t)
   | "bits64.set" => some (bitsSet 64 t)
+  | "bits8.far" => some (bitsFar 8 t)
+  | "bits16.far" => some (bitsFar 16 t)
+  | "bits32.far" => some (bitsFar 32 t)
+  | "bits64.far" => some (bitsFar 64 t)
   | "bits.signed" => some (bitsSigned (argH t 1) (argI t 2))
   | _ => none
 
